@@ -1158,6 +1158,40 @@ theorem C18_interleaving (bodyA bodyB : K → Prog K R) (sched : List Bool) (a b
       rw [h1, h2, hone]
       simp only [interleave, ih]
 
+
+/-- any number of parses in flight (threads, or nested parses started from inline Python while an
+    outer one is suspended): parse `i` runs `bodies i` on its own state; the schedule names the
+    parse that takes the next step of its `while stack:` loop -/
+def interleaveN (bodies : Nat → K → Prog K R) : List Nat → (Nat → State K R) → (Nat → State K R)
+  | [], s => s
+  | i :: sched, s =>
+    interleaveN bodies sched (fun j => if j = i then steps (bodies i) 1 (s i) else s j)
+
+/-- **C18 (any number of calls).**  Under any schedule over any number of parses, parse `i` is
+    exactly where it would be after running alone for as many steps as the schedule gave it. -/
+theorem C18_interleaving_any_number (bodies : Nat → K → Prog K R) (sched : List Nat)
+    (s : Nat → State K R) (i : Nat) :
+    interleaveN bodies sched s i = steps (bodies i) (sched.count i) (s i) := by
+  induction sched generalizing s with
+  | nil => simp [interleaveN, steps]
+  | cons x xs ih =>
+    simp only [interleaveN, ih]
+    by_cases h : i = x
+    · subst h
+      simp only [↓reduceIte, List.count_cons_self]
+      rw [Nat.add_comm, steps_add]
+    · have hx : (x == i) = false := by simpa using fun e => h e.symm
+      simp [h, List.count_cons, hx]
+
+/-- a nested parse (started at a callback of the outer one and run to its end before the outer
+    one resumes) is the schedule `outer^a ++ inner^n ++ outer^b`: the outer parse ends where
+    `a + b` uninterrupted steps take it -/
+theorem C18_nested_call_is_invisible (bodies : Nat → K → Prog K R) (s : Nat → State K R) (a n b : Nat) :
+    interleaveN bodies (List.replicate a 0 ++ List.replicate n 1 ++ List.replicate b 0) s 0
+      = steps (bodies 0) (a + b) (s 0) := by
+  rw [C18_interleaving_any_number]
+  simp [List.count_append, List.count_replicate]
+
 end C18
 
 /-! ## C19 – alternative spellings elaborate to the same expression -/
